@@ -7,7 +7,7 @@ OUT="$1"; JOBS="${2:-4}"; : > "$OUT"
 /verif/build.sh || exit 2
 BIN=$(mktemp /tmp/ssverif.matrix.XXXXXX); cp /verif/bin/ssverif "$BIN"; chmod +x "$BIN"
 export PATH=/opt/veriftools/go1.26.8/bin:$PATH GOTOOLCHAIN=local GOPROXY=off GOSUMDB=off GOWORK=off
-IDS="C01 C02 C03 C04 C05 C06 C07 C08 C09 C10 C11 C12 C13 C14 C15 C16 C17 C18 C19 C20"
+IDS="${SEED_IDS:-C01 C02 C03 C04 C05 C06 C07 C08 C09 C10 C11 C12 C13 C14 C15 C16 C17 C18 C19 C20}"
 one() {
   d="$1"; sid=$(basename "$d")
   WT=$(mktemp -d /tmp/seedwt.XXXXXX); rmdir "$WT"
@@ -16,7 +16,7 @@ one() {
   if ! git -C "$WT" apply "${d}patch.diff" 2>/dev/null && ! git -C "$WT" apply --3way "${d}patch.diff" >/dev/null 2>&1; then
     echo "$sid PATCH-DOES-NOT-APPLY"
   else
-    for ID in $IDS; do
+    for ID in $( [ "$SEED_IDS" = own ] && echo ${sid%%-*} || echo $IDS ); do
       out=$(VERIF_EVDIR="$EV" "$BIN" check -verif /verif -repo "$WT" -tier quick "$ID" 2>&1); rc=$?
       rules=$(echo "$out" | grep -o "rule=[A-Z0-9-]*" | sort -u | tr '\n' ' ')
       echo "$sid $ID rc=$rc $rules"
